@@ -57,7 +57,8 @@ CLAIMS["C13"] = proof(
     "The ordering clause (no later operation overtakes the starved one under serialised polls) is not proved; it is decided by the harness monitor on the implementation and the correspondence. " + CORR, NOTE)
 CLAIMS["C15"] = proof(
     "Proved for every history of the Mutex, Semaphore and RwLock machines: strong count = handles + owned guards + owning futures (C15_*_count); dropped exactly when the count reaches 0, at most once, "
-    "for Mutex and Semaphore (C15_*_dropped_once); an owned guard implies strong >= 1. Drop-once for RwLock not yet proved (monitored). Memory safety of the unsafe Arc plumbing is outside the model. " + CORR, NOTE)
+    "for all three (C15_*_dropped_once; for the RwLock with the borrow invariant of RwDrop.v: every future except an UpgradeArc and every borrowed guard keeps a user handle alive, an UpgradeArc owns its handle until it completes); "
+    "an owned guard implies strong >= 1 and not dropped (C15_*_guard_valid). Memory safety of the unsafe Arc plumbing is outside the model. " + CORR, NOTE)
 
 CLAIMS["C07"] = proof(
     "History half proved at full strength: C07_hist — for every history (every initial count and add_permits argument, cancellation at every point incl. a notified waiter, completed futures kept alive, several releases in a row) "
